@@ -16,6 +16,10 @@ pub mod ed25519_dalek {
     #[verifier::external_body]
     pub struct SignatureError { _p: u8 }
     pub type SecretKey = [u8; 32];
+    pub const SIGNATURE_LENGTH: usize = 64;
+    pub const PUBLIC_KEY_LENGTH: usize = 32;
+    pub const SECRET_KEY_LENGTH: usize = 32;
+    pub const KEYPAIR_LENGTH: usize = 64;
 
     pub uninterp spec fn vk_bytes(k: VerifyingKey) -> Seq<u8>;
     pub uninterp spec fn vk_of(k: SigningKey) -> VerifyingKey;
